@@ -356,7 +356,7 @@ class World:
         except Exception:
             body = None
         n = {"t": self.clock.now, "subject": msg.routing_key, "body": body, "seq": len(self.broker.oplog),
-             "expiration": msg.props.expiration, "owner": msg.publisher}
+             "expiration": msg.props.expiration, "owner": msg.publisher, "step": self.steps}
         self.notifications.append(n)
         for fn in self.on_notify:
             fn(self, n)
